@@ -112,7 +112,18 @@ def run(facts, rep, tier):
             # TH.1 for a lambda: captures
             if isinstance(body, Closure):
                 n_ref = 0
-                for dk, (mode, v) in body.env.items():
+                # by-reference captures of the thread's closure, and of every closure it holds by value (a thunk handed to a launch helper
+                # and moved into the thread's function object keeps its own captures)
+                envs = [(body, dk, mv) for dk, mv in body.env.items()]
+                stack_ = [v_ for dk_, (m_, v_) in body.env.items() if isinstance(v_, Closure)]
+                seen_c = set()
+                while stack_:
+                    c_ = stack_.pop()
+                    if id(c_) in seen_c: continue
+                    seen_c.add(id(c_))
+                    envs += [(c_, dk, mv) for dk, mv in c_.env.items()]
+                    stack_ += [v_ for dk_, (m_, v_) in c_.env.items() if isinstance(v_, Closure)]
+                for clo_, dk, (mode, v) in envs:
                     if mode != 'ref': continue
                     n_ref += 1
                     loc = v.loc if isinstance(v, Ref) else v
@@ -121,7 +132,7 @@ def run(facts, rep, tier):
                     while isinstance(loc, tuple) and loc and loc[0] == 'l' and isinstance(P.store.get(loc), Ref) and seen_ < 5:
                         loc = P.store[loc].loc; seen_ += 1
                     dcl = loc[-1] if isinstance(loc, tuple) and loc and loc[0] == 'l' else None
-                    var = next((c['var'] for c in (body.lam.captures if getattr(body, 'lam', None) is not None else []) or [] if c.get('decl') == dk), dk)
+                    var = next((c['var'] for c in (clo_.lam.captures if getattr(clo_, 'lam', None) is not None else []) or [] if c.get('decl') == dk), dk)
                     if dcl in auto_decls:
                         nm, ty_ = auto_decls[dcl]
                         rep.violation('TH.1', f'{inst_label}: captures `{var}` by reference', body_site,
